@@ -102,6 +102,10 @@ fn augment(s: &Shape, v: &Val, counter: &mut usize, inj: &Injection, hits: &mut 
             };
             (Shape::map(*k, si), Val::Map(vals))
         }
+        (Shape::NewtypeStruct(name, i), x) => {
+            let (si, vi) = augment(i, x, counter, inj, hits);
+            (Shape::NewtypeStruct(name, Box::new(si)), vi)
+        }
         (Shape::Struct(name, fs), Val::Struct(vals)) => {
             let me = *counter;
             *counter += 1;
@@ -130,6 +134,7 @@ fn augment_shape_only(s: &Shape, counter: &mut usize, inj: &Injection) -> (Shape
         Shape::Option(i) => Shape::opt(augment_shape_only(i, counter, inj).0),
         Shape::Seq(i) => Shape::seq(augment_shape_only(i, counter, inj).0),
         Shape::Map(k, i) => Shape::map(*k, augment_shape_only(i, counter, inj).0),
+        Shape::NewtypeStruct(name, i) => Shape::NewtypeStruct(name, Box::new(augment_shape_only(i, counter, inj).0)),
         Shape::Struct(name, fs) => {
             let me = *counter;
             *counter += 1;
@@ -277,6 +282,18 @@ pub fn shape_space(args: &Args) -> Vec<Shape> {
     shapes.push(Shape::Struct("One", vec![("only", i32s.clone())]));
     shapes.push(Shape::Struct("Four", vec![("a", i32s.clone()), ("b", Shape::opt(i32s.clone())), ("c", Shape::seq(Shape::Struct("E", vec![]))), ("d", Shape::Leaf(Leaf::Str))]));
     shapes.push(Shape::seq(Shape::Struct("E", vec![])));
+    // serde-derived (non-transparent) newtype structs as alias-like wrappers: around the
+    // root, and between a container and the object
+    let obj = Shape::Struct("S", vec![("a", i32s.clone()), ("b", i32s.clone())]);
+    let nt = |s: Shape| Shape::NewtypeStruct("NT", Box::new(s));
+    shapes.push(nt(obj.clone()));
+    shapes.push(nt(nt(obj.clone())));
+    shapes.push(Shape::opt(nt(obj.clone())));
+    shapes.push(Shape::seq(nt(obj.clone())));
+    shapes.push(Shape::map(Leaf::Str, nt(obj.clone())));
+    shapes.push(nt(Shape::seq(obj.clone())));
+    shapes.push(nt(Shape::map(Leaf::F64, Shape::opt(obj.clone()))));
+    shapes.push(Shape::Struct("S", vec![("a", nt(Shape::opt(nt(obj.clone())))), ("b", i32s.clone())]));
     shapes
 }
 
@@ -392,6 +409,9 @@ fn static_twins(r: &mut Report) {
     twin_case::<Vec<S<BTreeMap<bool, Bytes>>>>("Vec<S<BTreeMap<bool,Bytes>>>", r);
     twin_case::<BTreeMap<DoubleKey, S<f64>>>("BTreeMap<DoubleKey,S<f64>>", r);
     twin_case::<BTreeSet<S<i32>>>("BTreeSet<S<i32>>", r);
+    twin_case::<twins::NT<S<f64>>>("NT<S<f64>>", r);
+    twin_case::<Vec<twins::NT<S<Option<twins::NT<S<i32>>>>>>>("Vec<NT<S<Option<NT<S<i32>>>>>>", r);
+    twin_case::<BTreeMap<String, twins::NT<S<f64>>>>("BTreeMap<String,NT<S<f64>>>", r);
     twin_case::<Option<Vec<Option<S<S<i32>>>>>>("Option<Vec<Option<S<S<i32>>>>>", r);
     twin_case::<Alias<S<Alias<Vec<Alias<S<f64>>>>>>>("Alias<S<Alias<Vec<Alias<S<f64>>>>>>", r);
     twin_case::<BTreeMap<String, BTreeMap<String, S<Option<f64>>>>>("BTreeMap<String,BTreeMap<String,S<Option<f64>>>>", r);
